@@ -31,10 +31,16 @@ class Renderer:
     def xm(self, i, st):
         return "xm %d %d%s" % (i, st, " >&9" if self.use9 else "")
 
-    def cmd(self, i):
-        """render node i as a single command (usable after !, around && ||, as a pipeline stage)"""
+    WRAP = {"andor": ("seq", "fn", "kc"),                       # operand of && / || (`!` and pipelines bind tighter)
+            "andor_right": ("seq", "and", "or", "fn", "kc"),     # right operand: && || are left-associative
+            "not": ("seq", "and", "or", "not", "fn", "kc"),      # after `!`
+            "stage": ("seq", "and", "or", "not", "fn", "kc", "pipe", "eval")}   # pipeline stage
+
+    def cmd(self, i, ctx="stage"):
+        """render node i as a single command usable in the syntactic context ctx; braces only where the
+        grammar needs them (they are transparent, but they must not hide `! a || b` style adjacency)"""
         n = self.nd(i)
-        if n["t"] in ("seq", "and", "or", "not", "fn", "pipe", "kc"):
+        if n["t"] in self.WRAP[ctx]:
             return "{\n" + self.r(i) + "\n}"
         return self.r(i)
 
@@ -81,10 +87,9 @@ class Renderer:
             return self.r(n["a"]) + "\n" + self.r(n["b"])
         if t in ("and", "or"):
             op = " && " if t == "and" else " || "
-            a = self.r(n["a"]) if self.nd(n["a"])["t"] in ("and", "or") else self.cmd(n["a"])
-            return a + op + self.cmd(n["b"])
+            return self.cmd(n["a"], "andor") + op + self.cmd(n["b"], "andor_right")
         if t == "not":
-            return "! " + self.cmd(n["a"])
+            return "! " + self.cmd(n["a"], "not")
         if t == "grp":
             return "{\n" + self.r(n["a"]) + "\n}"
         if t == "sub":
@@ -134,10 +139,8 @@ class Renderer:
         if t == "pipe":
             # a stage that is directly `eval ...` is wrapped in braces: bash 5.2 turns an errexit exit taken
             # inside such a stage into status 1 (an accident of its eval/fork path, not a rule to model)
-            def stage(i):
-                return "{\n" + self.r(i) + "\n}" if self.nd(i)["t"] == "eval" else self.cmd(i)
-            a = stage(n["a"]) if n["a"] else "S %d" % n["n"]
-            b = stage(n["b"]) if n["b"] else "S %d" % n["m"]
+            a = self.cmd(n["a"], "stage") if n["a"] else "S %d" % n["n"]
+            b = self.cmd(n["b"], "stage") if n["b"] else "S %d" % n["m"]
             return a + " | " + b
         raise ValueError("unknown node " + t)
 
